@@ -106,12 +106,51 @@ def check_unfolding_route(ctx: Check, tree: Tree) -> None:
             ctx.advisory("R-OWNDOIT", tree.loc(cls.methods[own[0]].node), f"{name} overrides {own}: its unfolding is no longer the decorator's evaluate()-based doit() (judged by R-SIMULSUBS only)")
 
 
+def check_module_memos(ctx: Check, tree: Tree) -> None:
+    """R-MEMOKEY (module-level memo): a function of the module that keeps results in a module-level dictionary
+    (`M[K] = V`, read back with `M.get(K)` / `M[K]`) must have every parameter that the stored value V depends on in the
+    key K - otherwise the first caller's argument sticks for all later calls with an equal key (the indicator has to
+    return *the caller's* outside value)."""
+    import ast
+
+    from ..dataflow import RD
+    from ..loader import walk_function
+
+    mod = tree.module(MOD)
+    module_dicts = {name for name, node in mod.toplevel.items()
+                    if isinstance(node, (ast.Assign, ast.AnnAssign)) and getattr(node, "value", None) is not None
+                    and (isinstance(node.value, ast.Dict) or (isinstance(node.value, ast.Call) and unparse(node.value.func).split(".")[-1] in {"dict", "defaultdict", "OrderedDict", "WeakValueDictionary"}))}
+    n = 0
+    for fn in tree.funcs_in(MOD):
+        rd = None
+        for node in walk_function(fn.node, nested=False):
+            if not (isinstance(node, ast.Assign) and len(node.targets) == 1 and isinstance(node.targets[0], ast.Subscript)
+                    and isinstance(node.targets[0].value, ast.Name) and node.targets[0].value.id in module_dicts):
+                continue
+            n += 1
+            rd = rd or RD(fn.node)
+
+            def params_of(e: ast.AST) -> set[str]:
+                closure = rd.closure(rd.uses(e))
+                return {d.name for d in closure if d.kind == "param"} | {x.id for x in ast.walk(e) if isinstance(x, ast.Name) and x.id in fn.params}
+
+            key_params, value_params = params_of(node.targets[0].slice), params_of(node.value)
+            missing = sorted(value_params - key_params - {"self", "cls"})
+            memo = node.targets[0].value.id
+            ctx.verdict(not missing, "R-MEMOKEY", f"{fn.qual}::memo {memo}::key-misses::{','.join(missing)}", tree.loc(node),
+                        f"{fn.qual}: every parameter that the value stored in the module-level memo `{memo}` depends on is part of its key",
+                        None if not missing else f"`{unparse(node)[:70]}`: the stored value depends on {missing}, the key `{unparse(node.targets[0].slice)[:50]}` does not - the first caller's {missing} is returned to every later caller with an equal key")
+    if n == 0:
+        ctx.info("R-MEMOKEY", MOD.replace(".", "/") + ".py", f"no function of the module stores into a module-level dictionary ({len(module_dicts)} module-level dictionaries; rule armed, positive example in the self-test catalogue)")
+
+
 def run(ctx: Check, tree: Tree) -> None:
     ctx.decided += [
         "R-ARGORDER (shared with C14): Kibble/Kallen unpack self.args positionally; .args are in field-declaration order however the caller spells keyword arguments",
         "Kallen.evaluate is totally symmetric and equals (x-(u+v)^2)(x-(u-v)^2) at y=u^2, z=v^2 (R-TERM, polynomial identity)",
         "compute_third_mandelstam + sigma1 + sigma2 = m0^2+m1^2+m2^2+m3^2 (R-TERM)",
         "Kibble.evaluate, fully unfolded, equals lambda(lambda(s1,m1^2,m0^2), lambda(s2,m2^2,m0^2), lambda(s3,m3^2,m0^2)) (R-TERM)",
+        "R-MEMOKEY: a module-level memo of kinematics/phasespace.py has every parameter that the stored value depends on in its key",
         "is_within_phasespace: Piecewise((1, Kibble(s1,s2,third(s1,s2,...),m0..m3) <= 0), (caller's outside_value, True)) (R-TERM wiring)",
     ]
     ctx.not_decided += [
@@ -119,6 +158,7 @@ def run(ctx: Check, tree: Tree) -> None:
         "floating-point evaluation",
     ]
     ctx.section(check_unfolding_route, ctx, tree)
+    ctx.section(check_module_memos, ctx, tree)
     D.reset()
     te = TermEval(tree)
     kallen = tree.cls(f"{MOD}::Kallen")
